@@ -385,7 +385,7 @@ Definition inflate_raw (limit : N) (src : list N) : option (list N * list N) :=
   let fuel := S (8 * length src) in
   match blocks fuel fuel limit ([], src) ob_empty with
   | None => None
-  | Some (s, o) => Some (rev (ob_rev o), snd s)
+  | Some (s, o) => Some (rev_append (ob_rev o) [], snd s)
   end.
 
 (* deflate.rs::decode into a buffer of n bytes, as the reader uses it *)
